@@ -286,3 +286,130 @@ Proof.
   apply andb_true_iff in H. destruct H as [H H3]. apply andb_true_iff in H. destruct H as [H1 H2].
   split; [lia|]. split; [lia|]. apply list_eqb_eq. exact H3.
 Qed.
+
+(** * the mounted state of a canonical image satisfies the hypotheses of [session_identity] *)
+Lemma no_pads_12 bs : pads_zero_in Gen.BPB12_LAYOUT bs.
+Proof. unfold Gen.BPB12_LAYOUT. cbn [pads_zero_in]. repeat split; intros H0 H1; exfalso; (apply H0; reflexivity) || (apply H1; reflexivity). Qed.
+Lemma no_pads_32 bs : pads_zero_in Gen.BPB32_LAYOUT bs.
+Proof. unfold Gen.BPB32_LAYOUT. cbn [pads_zero_in]. repeat split; intros H0 H1; exfalso; (apply H0; reflexivity) || (apply H1; reflexivity). Qed.
+Lemma layout_ok_12 : layout_ok Gen.BPB12_LAYOUT.
+Proof. unfold Gen.BPB12_LAYOUT. cbn [layout_ok]. repeat split; lia. Qed.
+Lemma layout_ok_32 : layout_ok Gen.BPB32_LAYOUT.
+Proof. unfold Gen.BPB32_LAYOUT. cbn [layout_ok]. repeat split; lia. Qed.
+
+Theorem ser_parse_hdr boot : bytes_ok boot -> 90 <= lenZ boot ->
+  ser_hdr (parse_hdr boot) = firstn (if un_le (slice boot 22 24) >? 0 then 62 else 90) boot.
+Proof.
+  intros Hb Hl. unfold parse_hdr. cbv zeta. destruct (un_le (slice boot 22 24) >? 0).
+  - unfold ser_hdr, hdr_layout. cbn [is32hdr hdr_of_fields12].
+    replace (fields_of_hdr (hdr_of_fields12 (parse_layout Gen.BPB12_LAYOUT boot))) with (parse_layout Gen.BPB12_LAYOUT boot).
+    + rewrite ser_parse_layout; [reflexivity|apply layout_ok_12|exact Hb|change (layout_size Gen.BPB12_LAYOUT) with 62; lia|apply no_pads_12].
+    + unfold Gen.BPB12_LAYOUT. cbn [parse_layout Z.eqb Pos.eqb]. reflexivity.
+  - unfold ser_hdr, hdr_layout. cbn [is32hdr hdr_of_fields32].
+    replace (fields_of_hdr (hdr_of_fields32 (parse_layout Gen.BPB32_LAYOUT boot))) with (parse_layout Gen.BPB32_LAYOUT boot).
+    + rewrite ser_parse_layout; [reflexivity|apply layout_ok_32|exact Hb|change (layout_size Gen.BPB32_LAYOUT) with 90; lia|apply no_pads_32].
+    + unfold Gen.BPB32_LAYOUT. cbn [parse_layout Z.eqb Pos.eqb]. reflexivity.
+Qed.
+
+Lemma dread_sub d sz off L a n : dev_ok d -> 0 <= off -> 0 <= a -> 0 <= n -> a + n <= L -> off + L <= sz ->
+  firstn (Z.to_nat n) (skipn (Z.to_nat a) (dread d sz off L)) = dread d sz (off + a) n.
+Proof.
+  intros Hd Ho Ha Hn HL Hs. rewrite !dread_spec by (try assumption; lia).
+  replace (Z.to_nat (Z.min L (sz - off))) with (Z.to_nat L) by lia. replace (Z.to_nat (Z.min n (sz - (off + a)))) with (Z.to_nat n) by lia.
+  rewrite <- skipn_map, <- firstn_map || idtac. rewrite skipn_map, firstn_map. f_equal.
+  rewrite zrange_skipn by lia. rewrite zrange_firstn by lia. f_equal. lia.
+Qed.
+Lemma fatW_forall (P:Z * list Z -> Prop) fs fb b n : forall i,
+  (forall k, i <= k < i + Z.of_nat n -> P (fs + k * fb, b)) -> Forall P (fatW fs fb b i n).
+Proof.
+  induction n as [|m IH]; intros i H; [constructor|]. cbn [fatW]. apply Forall_app. split.
+  - apply IH. intros k Hk. apply H. lia.
+  - constructor; [apply H; lia|constructor].
+Qed.
+Lemma sig_bytes a b : byte_ok a -> byte_ok b -> un_le [a; b] = 43605 -> a = 85 /\ b = 170.
+Proof. unfold byte_ok. cbn [un_le]. lia. Qed.
+
+Theorem mount_close_identity d sz pc s1 dirty s2 :
+  dev_ok d -> mount d sz false pc = Ok (s1, dirty) -> op_close s1 = Ok s2 ->
+  let boot := dread d sz 0 512 in
+  let h0 := parse_hdr boot in
+  let p := set_bytes_per_cluster (Gen.parse_header_geometry pf_init h0) (BPB_BytsPerSec h0 * BPB_SecPerClus h0) in
+  let t := fat_type p in
+  let fs := BPB_RsvdSecCnt h0 * BPB_BytsPerSec h0 in
+  let fsz := BPB_BytsPerSec h0 * _fat_size p in
+  let fb := dread d sz fs fsz in
+  let bk := BPB_BkBootSec h0 * BPB_BytsPerSec h0 in
+  (* the image is canonical and clean *)
+  bytes_ok boot -> bytes_ok fb ->
+  Z.land (BS_Reserved1 h0) Gen.FAT_DIRTY_BIT_MASK = 0 ->
+  (t = 16 -> Nat.even (length fb) = true /\ Z.land (nthZ (parse16 fb) 1) 32768 = 32768 /\ 1 < lenZ (parse16 fb)) ->
+  (t = 32 -> (length fb mod 4 = 0)%nat /\ Z.land (nthZ (parse32 fb) 1) 134217728 = 134217728 /\ 1 < lenZ (parse32 fb)) ->
+  0 <= fs -> 0 <= fsz -> 0 <= BPB_NumFATs h0 -> fs + BPB_NumFATs h0 * fsz <= sz ->
+  (forall k, 0 <= k < BPB_NumFATs h0 -> dread d sz (fs + k * fsz) fsz = fb) ->
+  (t = 32 -> orig d sz (bk, ser_hdr h0) /\ orig d sz (510 + bk, [85; 170])) ->
+  forall a, 0 <= a -> dbyte (s_dev s2) a = dbyte d a.
+Proof.
+  intros Hd Hm Hc boot h0 p t fs fsz fb bk Hbb Hbf Hclean H16 H32 Hfs Hfsz Hnf Hfit Hcopies Hbak.
+  unfold mount in Hm. cbv zeta in Hm. fold boot in Hm.
+  destruct (length boot <? 512)%nat eqn:Elen; [discriminate|]. apply Nat.ltb_ge in Elen. fold h0 in Hm.
+  destruct (Gen.verify_bpb_header h0); [|discriminate]. cbn [bind] in Hm.
+  destruct (negb (un_le (slice boot 510 512) =? 43605)) eqn:Esig; [discriminate|]. apply negb_false_iff, Z.eqb_eq in Esig.
+  fold p fs fsz in Hm. fold fb in Hm. destruct (negb (lenZ fb =? fsz)) eqn:Efl; [discriminate|]. apply negb_false_iff, Z.eqb_eq in Efl.
+  fold t in Hm. cbn [negb] in Hm.
+  set (s0 := mkSt h0 p false pc (parse_fat t fb) (if t =? 32 then parse32hi fb else []) 0 d sz [] []) in *.
+  destruct (mark_dirty s0) as [s1'|] eqn:E1; [|discriminate]. cbn [bind] in Hm.
+  destruct (read_dir s1' (root_loc s1')); [|discriminate]. cbn [bind] in Hm. inversion Hm; subst s1' dirty. clear Hm.
+  assert (Hro : s_ro s1 = false) by (destruct (mark_dirty_shape _ _ E1) as (_ & _ & _ & _ & _ & _ & R); rewrite R; reflexivity).
+  unfold op_close in Hc. rewrite Hro in Hc.
+  assert (Hsz512 : 512 <= sz).
+  { unfold boot in Elen. rewrite dread_spec in Elen by (try assumption; lia). rewrite map_length, zrange_length in Elen. lia. }
+  assert (Hblen : length boot = 512%nat).
+  { unfold boot. rewrite dread_spec by (try assumption; lia). rewrite map_length, zrange_length. lia. }
+  destruct (session_identity s0 s1 s2 Hd E1 Hc) as (Hres & _); [exact Hclean| | | |exact Hres].
+  - (* FAT flags *)
+    intros m Hmask. unfold shutdown_mask in Hmask. change (ft s0) with t in Hmask. cbn [s_fat s0].
+    change Gen.FAT_TYPE_FAT16 with 16 in Hmask. change Gen.FAT_TYPE_FAT32 with 32 in Hmask.
+    destruct (t =? 16) eqn:E16.
+    + apply Z.eqb_eq in E16. inversion Hmask; subst m. destruct (H16 E16) as (_ & A & B). unfold parse_fat. rewrite E16.
+      change (16 =? 12) with false. change (16 =? 16) with true. cbv iota. change Gen.FAT16_CLEAN_SHUTDOWN_BIT_MASK with 32768. repeat split; try lia; assumption.
+    + destruct (t =? 32) eqn:E32'; [|discriminate]. apply Z.eqb_eq in E32'. inversion Hmask; subst m. destruct (H32 E32') as (_ & A & B). unfold parse_fat. rewrite E32'.
+      change (32 =? 12) with false. change (32 =? 16) with false. cbv iota. change Gen.FAT32_CLEAN_SHUTDOWN_BIT_MASK with 134217728. repeat split; try lia; assumption.
+  - (* boot sector(s) *)
+    change (s_h s0) with h0. change (s_dsize s0) with sz. change (s_dev s0) with d. change (ft s0) with t. change (bps s0) with (BPB_BytsPerSec h0). fold bk.
+    unfold bpbW. apply Forall_app. split.
+    + change Gen.FAT_TYPE_FAT32 with 32. destruct (t =? 32) eqn:E32'; [|constructor]. apply Z.eqb_eq in E32'. destruct (Hbak E32') as [A B].
+      constructor; [exact B|constructor; [exact A|constructor]].
+    + assert (Hn : lenZ (ser_hdr h0) = (if un_le (slice boot 22 24) >? 0 then 62 else 90) /\ ser_hdr h0 = dread d sz 0 (lenZ (ser_hdr h0))).
+      { unfold h0. rewrite ser_parse_hdr by (try exact Hbb; unfold lenZ; lia).
+        set (n := if un_le (slice boot 22 24) >? 0 then 62%nat else 90%nat).
+        assert (Hnl : lenZ (firstn n boot) = Z.of_nat n) by (unfold lenZ; rewrite firstn_length; unfold n; destruct (_ >? 0); lia).
+        split; [rewrite Hnl; unfold n; destruct (_ >? 0); reflexivity|]. rewrite Hnl.
+        pose proof (dread_sub d sz 0 512 0 (Z.of_nat n) Hd ltac:(lia) ltac:(lia) ltac:(lia) ltac:(unfold n; destruct (_ >? 0); lia) ltac:(lia)) as Hs.
+        cbn [Z.to_nat skipn] in Hs. rewrite Nat2Z.id in Hs. fold boot in Hs. exact Hs. }
+      destruct Hn as [Hn1 Hn2].
+      constructor; [|constructor; [|constructor]].
+      * (* signature *)
+        unfold orig. cbn [fst snd]. unfold lenZ at 1 2. cbn [length]. split; [lia|]. split; [lia|].
+        pose proof (dread_sub d sz 0 512 510 2 Hd ltac:(lia) ltac:(lia) ltac:(lia) ltac:(lia) ltac:(lia)) as Hs. fold boot in Hs. cbn [Z.add] in Hs.
+        unfold lenZ. cbn [length Z.of_nat Pos.of_succ_nat Pos.succ]. rewrite <- Hs.
+        unfold slice in Esig. change (Z.to_nat (512 - 510)) with 2%nat in Esig. change (Z.to_nat 2) with 2%nat.
+        destruct (firstn 2 (skipn (Z.to_nat 510) boot)) as [|x [|y [|z q]]] eqn:Es; try (cbn [un_le] in Esig; lia).
+        { exfalso. assert (length (firstn 2 (skipn (Z.to_nat 510) boot)) = 2%nat) by (rewrite firstn_length, skipn_length, Hblen; lia). rewrite Es in H. discriminate. }
+        { assert (Hin : bytes_ok [x; y]).
+          { rewrite <- Es. apply Forall_forall. intros v Hv. apply In_firstn' in Hv. apply In_skipn' in Hv. exact (proj1 (Forall_forall _ _) Hbb v Hv). }
+          inversion Hin as [|? ? Hx Hr]; subst. inversion Hr as [|? ? Hy _]; subst. destruct (sig_bytes x y Hx Hy Esig) as [-> ->]. reflexivity. }
+        { exfalso. assert (length (firstn 2 (skipn (Z.to_nat 510) boot)) <= 2)%nat by (rewrite firstn_length; lia). rewrite Es in H. cbn in H. lia. }
+      * unfold orig. cbn [fst snd]. split; [lia|]. split; [rewrite Hn1; destruct (_ >? 0); lia|exact Hn2].
+  - (* FAT copies *)
+    intros m Hmask. change (s_h s0) with h0. change (s_dsize s0) with sz. change (s_dev s0) with d. change (ft s0) with t.
+    change (fat_start s0) with fs. change (fat_bytes s0) with fsz. cbn [s_fat s_hi s0].
+    assert (Hpack : pack_fat t (parse_fat t fb) (if t =? 32 then parse32hi fb else []) = fb).
+    { unfold shutdown_mask in Hmask. change (ft s0) with t in Hmask. change Gen.FAT_TYPE_FAT16 with 16 in Hmask. change Gen.FAT_TYPE_FAT32 with 32 in Hmask.
+      unfold pack_fat, parse_fat. destruct (t =? 16) eqn:E16.
+      - apply Z.eqb_eq in E16. rewrite E16. change (16 =? 12) with false. change (16 =? 16) with true. cbv iota.
+        rewrite pack16_parse16 by exact Hbf. apply trim16_even. apply (H16 E16).
+      - destruct (t =? 32) eqn:E32'; [|discriminate]. apply Z.eqb_eq in E32'. rewrite E32'. change (32 =? 12) with false. change (32 =? 16) with false. cbv iota.
+        rewrite pack32_parse32 by exact Hbf. apply trim32_id. apply (H32 E32'). }
+    rewrite Hpack. apply fatW_forall. intros k Hk. rewrite Z2Nat.id in Hk by lia. unfold orig. cbn [fst snd]. rewrite Efl.
+    split; [nia|]. split; [nia|]. symmetry. apply Hcopies. lia.
+Qed.
